@@ -95,7 +95,7 @@ MEMBER_VALUES = {
     'params': [[], [1, 'x'], {}, {'a': 1}, None, 'str', 7, True, [[]]],
     'id': [0, 1, -5, 'abc', '', None, 1.5, True, [1], {'a': 1}, 10 ** 25],
     'result': [None, 0, 'ok', [1, 2], {'x': None}, False, 2.5],
-    'error': [None, 'boom', 7, True, {'code': 1, 'message': 'm'}, {'code': '1', 'message': 'm'}, {'code': 1},
+    'error': [None, 'boom', 7, True, 0, '', False, [], 0.0, {'code': 1, 'message': 'm'}, {'code': '1', 'message': 'm'}, {'code': 1},
               {'message': 'only'}, {'code': True, 'message': ''}, {}, [1], 1.5, {'code': 1, 'message': 5}],
 }
 
